@@ -10,9 +10,15 @@ and factorisation results (c18.signal); the exact-signal
 contract `S Sᵀ = n_channel · G` (hypothesis of `exact_signal_reproduces`) is checked on
 every real call; the model's own exact signal (own Cholesky / Gram–Schmidt) closes the loop
 to `signal · D` independently.
+
+Round 4: reuse sessions (`C18_session.py`: several calls in one process on live objects that are handed
+in again, every call judged from its own numbers) and the pristine-process oracle (`C18_fresh.py`).
+Nothing mutable is shared between cases or between the implementation and the model / oracle side:
+`_objects(case)` builds fresh arrays from the case's numbers every time it is called.
 """
 import json
 import math
+import os
 from fractions import Fraction as F
 
 import numpy as np
@@ -37,7 +43,9 @@ THEOREMS = [P + n for n in (
     'real_eig_sqrt', 'euclid_is_C01_estimator', 'simulated_rdm_eq_model_C01',
     'general_design_reproduces', 'general_design_reproduces_D', 'factor_contract_reproduces',
     'coded_signal_reproduces', 'eig_clamp_nonneg', 'eig_clamp_error', 'chol_eigh_gram_real',
-    'coded_signal_reproduces_real', 'general_design_dataset', 'row_center_sums_zero', 'draw_shapes')]
+    'coded_signal_reproduces_real', 'general_design_dataset', 'row_center_sums_zero', 'draw_shapes',
+    'inputs_not_written', 'no_module_state', 'call_stateless', 'session_calls_independent',
+    'session_calls_only', 'specSession_append', 'session_call_reproduces')]
 RULE = ('cases from one PRNG: model RDM = squared distances of an integer point set (3-7 conditions, '
         'incl. collinear / duplicated / low-rank sets; fixed, weighted, select, interpolate models), channels '
         'n_cond+{0,1,2,5} (a few below n_cond; 30 when every argument is left at its default), 1-4 partitions, '
@@ -47,7 +55,14 @@ RULE = ('cases from one PRNG: model RDM = squared distances of an integer point 
         'C / Fortran / strided / int / bool / float32 layouts), optional noise channel / trial and signal channel '
         'covariance, exact or random signal, same or fresh signal (all four combinations with several '
         'simulations forced), numpy seed; the malformed stream (3-D cond_vec, wrong covariance shapes); '
-        'non-trivial = at least 3 conditions; distinct = distinct (points, channels, design, options, seed)')
+        'non-trivial = at least 3 conditions; distinct = distinct (points, channels, design, options, seed); '
+        'reuse sessions (round 4): 2-5 make_dataset / make_signal / make_design calls in one process on live '
+        'objects that are handed in again — models of one class, name and theta with different RDMs, one model '
+        'object simulated repeatedly with other signal / noise / n_sim / design, a model whose RDM (or theta) '
+        'the caller rewrites in place or rebinds between calls, the same cond_vec / design matrix, covariance '
+        'and second-moment arrays passed again, returned design vectors scribbled on by the caller — every '
+        'call judged from its own numbers, arguments bit-identical after every call, earlier results '
+        'untouched at the end; a session is non-trivial with >= 2 steps')
 BRANCHES = ['design:only', 'cond:design', 'cond:labels', 'cond:matrix', 'cond:general', 'signal:exact', 'signal:random',
             'same', 'fresh', 'noise:zero', 'noise:pos', 'noisecov:channel', 'noisecov:trial',
             'signalcov', 'nch:eq', 'nch:gt', 'nch:lt', 'model:generic', 'model:degenerate',
@@ -61,7 +76,13 @@ BRANCHES = ['design:only', 'cond:design', 'cond:labels', 'cond:matrix', 'cond:ge
             'combo:exact+same', 'combo:exact+fresh', 'combo:random+same', 'combo:random+fresh',
             'signalcov:nsim>1', 'noisecov:trial:nsim>1', 'noisecov:trial:zero-noise',
             'own:met:eq', 'own:met:degenerate', 'factor:residual', 'factor:residual:eq',
-            'mk:interp_none', 'stack:vec', 'stack:rdms', 'stack:mat']
+            'mk:interp_none', 'stack:vec', 'stack:rdms', 'stack:mat',
+            # reuse sessions (round 4)
+            'session:same-name', 'session:same-model', 'session:edit-rdm', 'session:edit-rdm:inplace',
+            'session:edit-rdm:rebind', 'session:reuse-cond', 'session:reuse-cov', 'session:reuse-theta',
+            'session:edit-theta', 'session:relabel', 'session:make-signal', 'session:reuse-g', 'session:make-design',
+            'session:design-scribble', 'session:mixed', 'session:len>=3', 'session:claimed-later',
+            'session:claimed-later:general', 'session:same-name:stack', 'session:intact', 'session:kept']
 ASSUMPTIONS = [
     'the exact-signal contract S S^T = n_channel*G of make_signal is checked numerically on every real '
     'call (rel. 1e-9); the orthonormality of np.linalg.qr, the decomposition of np.linalg.eigh and the factor '
@@ -80,6 +101,9 @@ TRUSTED_EXTRA = [
     'np.linalg.cholesky of the covariance arguments (passed to the model as recorded factors)',
     'harness/leaves/C18.py derivation of scalar entry formulas from array expressions (np.kron, np.identity, '
     '@, masked assignments, dict / keyword wiring, size= tuples) before py2lean',
+    'harness/leaves/C18.py syntactic write / state analysis behind the leaves inputWrites and moduleState '
+    '(flow-insensitive aliasing; scope: every function of simulation/sim.py, util/matrix.indicator / centering, '
+    'the predict methods of the four model classes); state kept elsewhere is covered by the reuse sessions only',
 ]
 
 _OWN = {}
@@ -320,6 +344,8 @@ def generate(rng, tier):
     ]
     for f in forced:
         yield _one(rng, f)
+    # reuse sessions: several calls in one process on the same live objects
+    yield from S.generate(rng, tier)
     for _ in range(n):
         yield _one(rng)
 
@@ -331,6 +357,10 @@ def search(rng, tier):
     while True:
         f = {'exact': True, 'noise': 0.0, 'scc': None} if rng.random() < 0.7 else {}
         k += 1
+        if k % 3 == 0:
+            # a reuse session (round-robin over the kinds)
+            yield S.search_session(rng, k // 3)
+            continue
         if k % 4 == 0:
             # general design matrices (heights, rest rows, compound rows), round-robin over the kinds
             f = dict(f, cond_mode='general', zkind=ZKINDS[(k // 4) % len(ZKINDS)])
@@ -509,8 +539,21 @@ class _Tap:
         return False
 
 
-def _call(case, noise=None, signal=None, tap=None):
+def _objects(case):
+    """the objects of one call, built from the case's own numbers only (fresh arrays every time: nothing
+    is shared between cases, between the implementation side and the model / oracle side, or between two
+    evaluations of the same case)"""
     model, theta, dvec, cond_vec, _ = _setup(case)
+    return {'model': model, 'theta': theta, 'cond_vec': cond_vec, 'scc': _cov(case['scc']),
+            'ncc': _cov(case['ncc']), 'nct': _cov(case['nct'])}
+
+
+def _call(case, noise=None, signal=None, tap=None, objs=None):
+    """one make_dataset call; `objs` = the live objects of a reuse session (else fresh ones)"""
+    if objs is None:
+        objs = _objects(case)
+    model, theta, cond_vec = objs['model'], objs['theta'], objs['cond_vec']
+    dvec = np.array(_expected_dvec(case), dtype=float)
     np.random.seed(case['seed'])
 
     def num(x):
@@ -523,8 +566,8 @@ def _call(case, noise=None, signal=None, tap=None):
     kw = dict(n_channel=case['n_ch'], n_sim=case['n_sim'],
               signal=num(case['signal'] if signal is None else signal),
               noise=num(case['noise'] if noise is None else noise),
-              signal_cov_channel=_cov(case['scc']), noise_cov_channel=_cov(case['ncc']),
-              noise_cov_trial=_cov(case['nct']), use_exact_signal=case['exact'],
+              signal_cov_channel=objs['scc'], noise_cov_channel=objs['ncc'],
+              noise_cov_trial=objs['nct'], use_exact_signal=case['exact'],
               use_same_signal=case['same'])
     if case.get('defaults'):
         # only what the oracle varies is passed; everything else is the signature's default
@@ -542,6 +585,10 @@ def _canon_desc(x):
     if isinstance(x, (np.floating, float, np.integer, int, bool, np.bool_)):
         return float(x)
     return str(x)
+
+
+def _canon_desc_dict(d):
+    return {str(k): _canon_desc(v) for k, v in dict(d).items()}
 
 
 def _claims_any(case):
@@ -571,14 +618,25 @@ def _design_only(case):
     return case.get('kind') == 'design_only'
 
 
+def _is_session(case):
+    return case.get('kind') == 'session'
+
+
 def run_impl(case):
+    if _is_session(case):
+        return S.run_impl(case)
     if _design_only(case):
         cv, pv = sim.make_design(case['n_cond'], case['n_part'])
         return {'design': {'cond': _canon_desc(cv), 'part': _canon_desc(pv)}}
-    key = _key(case)
+    return _run_single(case, _key(case))
+
+
+def _run_single(case, key, objs=None, keep=None):
+    """one make_dataset call with everything recorded; `objs` = live objects of a session, `keep` = a
+    list that receives the returned Dataset objects (a session looks at them again later)"""
     try:
         with _Tap() as tap:
-            dss, (model, theta, dvec, cond_vec) = _call(case)
+            dss, (model, theta, dvec, cond_vec) = _call(case, objs=objs)
     except (ValueError, TypeError, AssertionError, np.linalg.LinAlgError) as exc:
         _REC[key] = None
         return {'exc': type(exc).__name__}
@@ -677,6 +735,8 @@ def run_impl(case):
                 d['rdm'] = {'exc': type(exc).__name__}
         out.append(d)
     res['datasets'] = out
+    if keep is not None:
+        keep.extend(dss)
     # the whole list through calc_rdm (the Iterable branch): one RDM per simulation
     res['rdm_list'] = None
     if labels is not None:
@@ -705,11 +765,19 @@ def _validate_request(case):
 
 
 def model_requests(case):
+    if _is_session(case):
+        return S.model_requests(case)
     if _design_only(case):
         return [{'op': 'c18.design', 'n_cond': case['n_cond'], 'n_part': case['n_part']}]
     key = _key(case)
     if key not in _REC:
         run_impl(case)
+    return _requests_single(case, key)
+
+
+def _requests_single(case, key):
+    """driver requests of one make_dataset call: everything is computed from the case's own numbers (fresh
+    objects from `_setup`) and the draws / factorisation results recorded under `key`"""
     rec = _REC.get(key)
     named = [('validate', _validate_request(case))]
     if rec is None:
@@ -766,15 +834,26 @@ def _unf(x):
 
 
 def model_result(case, answers):
+    if _is_session(case):
+        return S.model_result(case, answers)
+    if not answers:
+        return {'no_recording': True}
+    if _design_only(case):
+        for a in answers:
+            if isinstance(a, dict) and 'model_error' in a:
+                return a
+        return {'design': {'cond': [float(v) for v in answers[0]['cond']],
+                           'part': [float(v) for v in answers[0]['part']]}}
+    return _result_single(case, _key(case), answers)
+
+
+def _result_single(case, key, answers):
     if not answers:
         return {'no_recording': True}
     for a in answers:
         if isinstance(a, dict) and 'model_error' in a:
             return a
-    if _design_only(case):
-        return {'design': {'cond': [float(v) for v in answers[0]['cond']],
-                           'part': [float(v) for v in answers[0]['part']]}}
-    ans = dict(zip(_NAMES.get(_key(case), []), answers))
+    ans = dict(zip(_NAMES.get(key, []), answers))
     if 'dataset' not in ans:
         return {'accepts': ans.get('validate'), 'no_recording': True}
     ds = ans['dataset']
@@ -831,6 +910,12 @@ def _expected_rdm(case):
 
 
 def compare(case, impl, model):
+    if _is_session(case):
+        return S.compare(case, impl, model)
+    return _compare_single(case, impl, model)
+
+
+def _compare_single(case, impl, model):
     if isinstance(model, dict) and 'own' in model:
         _OWN[_key(case)] = _own_met(case, model)
     if isinstance(model, dict) and 'model_error' in model:
@@ -978,6 +1063,8 @@ def _degenerate(case):
 
 
 def features(case, impl):
+    if _is_session(case):
+        return S.features(case, impl)
     if _design_only(case):
         return {'n_cond': case['n_cond'], 'cond_mode': 'design_only', 'branches': ['design:only']}
     n = len(case['pts'])
@@ -1042,6 +1129,8 @@ def features(case, impl):
 
 
 def nontrivial_key(case, impl):
+    if _is_session(case):
+        return S.nontrivial_key(case)
     if _design_only(case):
         return ['design', case['n_cond'], case['n_part']] if min(case['n_cond'], case['n_part']) >= 2 else None
     if len(case['pts']) < 3:
@@ -1072,8 +1161,33 @@ def _fail(what, observed, expected, **feat):
     return {'what': what, 'observed': observed, 'expected': expected, 'features': feat}
 
 
+_FRESH = None
+
+
 def oracle(case):
-    """direct transcription of the C18 statement on the real code (no Lean, no recording)"""
+    """the property on the real code.  Evaluated in a pristine process image (rsatoolbox imported, never
+    called: `C18_fresh`), so that the verdict — and every step of shrinking — depends on the case alone and
+    not on what this process has done to module-level state of the library before; a replay therefore
+    reproduces in a fresh interpreter."""
+    global _FRESH
+    if os.environ.get('C18_ORACLE_INPROCESS'):
+        return oracle_here(case)
+    if _FRESH is None:
+        from engines import C18_fresh
+        _FRESH = C18_fresh.Fresh()
+    return _FRESH.oracle(case)
+
+
+def oracle_here(case):
+    if _is_session(case):
+        return S.oracle(case)
+    return _oracle_single(case)
+
+
+def _oracle_single(case, objs=None):
+    """direct transcription of the C18 statement on the real code (no Lean, no recording).  `objs` = the
+    live objects of a reuse session: every call the oracle makes then uses those same objects; what is
+    expected is computed from the case's own numbers."""
     n = case['n_cond'] if _design_only(case) else len(case['pts'])
     # make_design: every condition exactly once per partition
     if _design_only(case) or case['cond_mode'] == 'design':
@@ -1092,10 +1206,12 @@ def oracle(case):
     if case.get('bad'):
         return None     # rejections are not part of the property's statement
     try:
-        dss, (model, theta, dvec, cond_vec) = _call(case)
-        dss0, _ = _call(case, noise=0.0)
-        dss1, _ = _call(case, noise=1.0)
-        dssz, _ = _call(case, signal=0.0)
+        dss, (model, theta, dvec, cond_vec) = _call(case, objs=objs)
+        dss0, _ = _call(case, noise=0.0, objs=objs)
+        dss1, _ = _call(case, noise=1.0, objs=objs)
+        dssz, _ = _call(case, signal=0.0, objs=objs)
+        pristine = _objects(case)
+        cond_vec, theta = pristine['cond_vec'], pristine['theta']
     except (ValueError, TypeError, AssertionError, np.linalg.LinAlgError) as exc:
         if case['scc'] is not None and case['n_ch'] < n:
             return None     # outside the property (signal covariance, fewer channels than conditions)
@@ -1109,7 +1225,7 @@ def oracle(case):
         if got != _canon_desc(cond_vec):
             return _fail(f'dataset {k}: obs descriptor cond_vec is not the condition vector passed',
                          got, _canon_desc(cond_vec), failure='descriptor')
-        want = {'signal': float(case['signal']), 'noise': float(case['noise']), 'model': model.name,
+        want = {'signal': float(case['signal']), 'noise': float(case['noise']), 'model': _model_name(case),
                 'theta': _theta_list(theta)}
         for f, w in want.items():
             g = _theta_list(ds.descriptors.get(f)) if f == 'theta' else _canon_desc(ds.descriptors.get(f))
@@ -1141,7 +1257,7 @@ def oracle(case):
         elif max(abs(float(v)) for v in dvec) > 0:
             # freshness is judged on the random (not orthonormalised) signal, which is an injective
             # function of the draw whenever the model RDM is not identically zero
-            dssr, _ = _call(dict(case, exact=False), noise=0.0)
+            dssr, _ = _call(dict(case, exact=False), noise=0.0, objs=objs)
             mr = [np.asarray(ds.measurements, dtype=float) for ds in dssr]
             for k in range(1, len(mr)):
                 if float(np.max(np.abs(mr[0]))) > 1e-9 and np.all(np.abs(mr[k] - mr[0]) <= 1e-12):
@@ -1234,6 +1350,8 @@ def _gram_exact(dvec, n):
 # ------------------------------------------------------------------ shrinking
 
 def shrink(case, still_fails):
+    if _is_session(case):
+        return S.shrink(case, still_fails)
     if _design_only(case):
         return case
     cur = dict(case)
@@ -1303,3 +1421,6 @@ def shrink(case, still_fails):
                     if attempt(dict(cur, pts=pts)):
                         break
     return cur
+
+
+from engines import C18_session as S  # noqa: E402  (needs the definitions above)
